@@ -86,7 +86,8 @@ StepErrPipe(s, it) ==
          [] it.cond = "error" -> [s EXCEPT !.retErr = CelError, !.pc = "translate"]
          [] OTHER ->
               CASE it.type = "default"  -> [s EXCEPT !.pipeErr = s.execErr, !.pc = "finalize"]
-                [] it.type = "www"      -> [s EXCEPT !.pipeErr = Leaf("authn"), !.www = TRUE, !.pc = "finalize"]
+                [] it.type \in {"www", "wwwr"} ->  \* wwwr: realm configured
+                     [s EXCEPT !.pipeErr = Leaf("authn"), !.www = TRUE, !.pc = "finalize"]
                 [] it.type = "redirect" ->
                      IF it.out[1] = "ok"
                      THEN [s EXCEPT !.pipeErr = <<"redir", it.code>>, !.pc = "finalize"]
@@ -187,7 +188,7 @@ Expected(c, overrides) ==
    subject  |-> IF Positive(s) THEN c.authn[s.subjectBy].n ELSE "",
    class    |-> IF Positive(s) \/ s.panicked THEN "none" ELSE Classify(s.retErr),
    status   |-> IF Positive(s) THEN 0
-                ELSE IF s.panicked THEN 500
+                ELSE IF s.panicked THEN StatusOf(Leaf("internal"), overrides)   \* recovery -> internal error
                 ELSE StatusOf(s.retErr, overrides),
    location |-> ~Positive(s) /\ ~s.panicked /\ HasLocation(s.retErr),
    www      |-> s.www /\ ~Positive(s) /\ ~s.panicked /\ Classify(s.retErr) = "authn"]
